@@ -980,6 +980,17 @@ fn gen_c03(tier: &str, r: &Rng, o: &mut Out<'_>) {
                     plan.pre = prev[head_len..].to_vec();
                     if 1 + plan.pre.len() + plan.first > 184 { plan.first = 184 - 1 - plan.pre.len(); }
                 }
+                else if prior == 3 {
+                    // a REJECTED section start precedes (length above the limit, or the wrong syntax bit):
+                    // the processor ignores its continuations, and must stop ignoring at our start
+                    // (seeded change C03-r11m1: `ignore_rest` cleared only by `reset()`)
+                    let mut rej = rand_section(r, syntax, 200 + r.below(300) as usize);
+                    if r.chance(1, 2) { let l = 1022 + r.below(3000) as usize; rej[1] = (rej[1] & 0xf0) | ((l >> 8) as u8 & 0x0f); rej[2] = l as u8; } else { rej[1] ^= 0x80; }
+                    let pp = SecPlan { pre: vec![], first: 100, conts: vec![], trailing_stuff: false };
+                    let mut all = packetize_section(r, 0x100, &mut cc, &rej, &pp);
+                    all.truncate(1 + r.below(2) as usize);
+                    pkts.extend(all);
+                }
                 let lo = min_first.min(sec.len());
                 if plan.first < lo { plan.first = lo; }
                 if 1 + plan.pre.len() + plan.first > 184 { plan.first = 183 - plan.pre.len(); }
@@ -1960,6 +1971,63 @@ fn gen_c04_gate(tier: &str, r: &Rng, o: &mut Out<'_>) {
     }
 }
 
+/// structured damage of the CRC_32 field itself (wiped to 00 00 00 00 / ff ff ff ff, bytes swapped,
+/// last byte only) and tables of the maximum size (1020..=1024 bytes: the checksum covers every one of
+/// them, intact ones are applied, a damaged tail is not) — seeded changes C04-r12m1 (an all-zero CRC
+/// field taken for "no checksum") and C04-r12m3 (checksum over the first 1021 bytes only)
+fn gen_c04_field_and_maxsize(tier: &str, r: &Rng, o: &mut Out<'_>) {
+    let nt = if tier == "thorough" { 200 } else { 12 };
+    for t in 0..nt {
+        let (progs, pat) = base_tables(r);
+        let target_pat = t % 2 == 0;
+        let sec = if target_pat { pat.clone() } else { pmt_of(&progs[0]) };
+        let n = sec.len();
+        for kind in 0..6 {
+            let mut bad = sec.clone();
+            match kind {
+                0 => { for b in bad[n - 4..].iter_mut() { *b = 0; } }
+                1 => { for b in bad[n - 4..].iter_mut() { *b = 0xff; } }
+                2 => { bad.swap(n - 4, n - 1); bad.swap(n - 3, n - 2); }
+                3 => { bad[n - 1] ^= 1 << r.below(8); }
+                4 => { bad[n - 1] = r.byte(); }
+                _ => { bad[n - 4] = 0; bad[n - 3] = 0; }
+            }
+            if bad == sec { continue; }
+            for &after_valid in [false, true].iter() {
+                let mut m = Mux::new(r);
+                let mut all = vec![];
+                if !target_pat || after_valid { all.extend(m.section(0, &pat, &simple_plan(pat.len()))); }
+                if after_valid && !target_pat { all.extend(m.section(progs[0].pmt_pid, &sec, &plan_for(r, &sec))); }
+                if after_valid {
+                    // the damaged copy claims another version, so the de-duplication layer lets it through
+                    bad[5] = (bad[5] & 0xc1) | ((((bad[5] >> 1) & 31).wrapping_add(1 + r.below(30) as u8) & 31) << 1);
+                }
+                let pid = if target_pat { 0 } else { progs[0].pmt_pid };
+                all.extend(m.section(pid, &bad, &plan_for(r, &bad)));
+                let pp: Vec<u16> = progs.iter().flat_map(|p| p.streams.iter().map(|s| s.1).chain(std::iter::once(p.pmt_pid))).collect();
+                all.extend(probes(&mut m, &pp));
+                emit(o, true, "b0t0", &[concat(&all)]);
+            }
+        }
+    }
+    // maximum-size PATs: 252 / 253 programs (1020 / 1024 bytes) and a PMT padded to 1021..=1024 bytes
+    let nm = if tier == "thorough" { 40 } else { 4 };
+    for t in 0..nm {
+        let nprog = if t % 2 == 0 { 253 } else { 252 };
+        let entries: Vec<(u16, u16)> = (0..nprog).map(|k| (1 + k as u16, 0x20 + k as u16)).collect();
+        let pat = pat_section(r.below(65536) as u16, r.byte() & 31, &entries);
+        for dmg in 0..4 {
+            let mut sec = pat.clone();
+            let n = sec.len();
+            match dmg { 0 => {} 1 => { sec[n - 1] ^= 1 << r.below(8); } 2 => { sec[n - 2] ^= 0x10; sec[n - 3] ^= 1; } _ => { let k = n - 1 - r.below(7) as usize; sec[k] = sec[k].wrapping_add(1 + r.below(200) as u8); } }
+            let mut m = Mux::new(r);
+            let mut all = m.section(0, &sec, &plan_for(r, &sec));
+            all.extend(probes(&mut m, &[0x20, 0x21, 0x20 + nprog as u16 - 1]));
+            emit(o, true, "b0t0", &[concat(&all)]);
+        }
+    }
+}
+
 /// a valid table is applied first, THEN damaged copies arrive whose version field differs (so the
 /// de-duplication layer lets them through): nothing may be requested, replaced or removed by them
 fn gen_c04_after_valid(tier: &str, r: &Rng, o: &mut Out<'_>) {
@@ -2025,6 +2093,7 @@ fn gen_c04_runs_of_bad(tier: &str, r: &Rng, o: &mut Out<'_>) {
 fn gen_c04(tier: &str, r: &Rng, o: &mut Out<'_>) {
     gen_crc_cases(tier, r, o);
     gen_c04_gate(tier, r, o);
+    gen_c04_field_and_maxsize(tier, r, o);
     gen_c04_after_valid(tier, r, o);
     gen_c04_runs_of_bad(tier, r, o);
     mixed_scenarios(tier, r, o, "C04");
@@ -2330,6 +2399,24 @@ fn gen_c01(tier: &str, r: &Rng, o: &mut Out<'_>) {
         let pk: Vec<Vec<u8>> = (0..(1 + r.below(6))).map(|_| { let mut p = rand_packet(r); p[0] = 0x47; p[1] = (p[1] & 0x60) | 1; p[2] = 0; if r.chance(2, 3) { p[3] = (p[3] & 0x0f) | 0x10; } p }).collect();
         o.h(&format!("sec {} {}", if r.chance(1, 2) { "s" } else { "c" }, join(&pk)));
         o.h(&format!("pesf {}", join(&pk)));
+    }
+    // every flag byte with a PES_header_data_length around what the flags imply (and 0 / 255), in a
+    // buffer long enough for all of it: headers whose declared length disagrees with their flags must be
+    // refused, and every accessor of an accepted one must be total (seeded change C01-r11m3: the two
+    // consistency checks of from_bytes merged, pes_extension() then slices backwards)
+    for flags in 0..=255u8 {
+        let mut need = match flags >> 6 { 2 => 5usize, 3 => 10, _ => 0 };
+        if flags & 0x20 != 0 { need += 6; } if flags & 0x10 != 0 { need += 3; } if flags & 0x08 != 0 { need += 1; }
+        if flags & 0x04 != 0 { need += 1; } if flags & 0x02 != 0 { need += 2; }
+        for hdl in [0usize, need.saturating_sub(1), need, need + 1, need + 7, 255] {
+            if hdl > 255 { continue; }
+            let mut b = vec![0u8, 0, 1, 0xe0, 0, 0, 0x80 | (r.byte() & 0x3f), flags, hdl as u8];
+            let mut body = r.bytes(300);
+            // plausible timestamps so that accepted headers get past the marker checks
+            for k in [0usize, 5] { if k + 4 < body.len() { body[k] |= 0x01; body[k + 2] |= 0x01; body[k + 4] |= 0x01; body[k] = (body[k] & 0x0f) | if k == 0 { (flags >> 6) << 4 } else { 0x10 }; } }
+            b.extend(body);
+            o.h(&format!("pes {}", hex(&b)));
+        }
     }
     // valid PES packets cut after every length up to the end of a long optional header
     for l in 0..=70usize {
